@@ -123,7 +123,7 @@ def gen_c02(rng, tier, n_random, n_exh):
                     s, e = None, None       # a constant over the whole line
                 if rng.random() < 0.15 and b.pts:
                     e = s
-                v = rng.choice([1, 1, -1, 2, Fraction(1, 2), -3])
+                v = rng.choice([1, 1, -1, 2, Fraction(1, 2), -3, 0])
                 b.add(layer_stmt(rng, r, s, e, v, vector=False), focus=True)
             else:
                 k = rng.randint(1, 4)
@@ -156,12 +156,24 @@ def gen_c03(rng, n):
         b = Builder(pick_domain(rng, main_only=False))
         f = pick_spec(rng, quarter=rng.random() < 0.3)
         r = b.emit_any(f, rng)
-        if rng.random() < 0.3:
+        u0 = rng.random()
+        if u0 < 0.3:
             # a result of an operation rather than a directly built function
             g = pick_spec(rng, f.closed)
             r2 = b.emit_any(g, rng)
             r3 = b.reg()
             b.add(f"bin {r3} {rng.choice(['add', 'sub', 'mul', 'le', 'and'])} {r} {r2}")
+            r = r3
+        elif u0 < 0.5:
+            # … or of an operation with a constant on either side, after the operand has been read
+            b.add(f"touch {r} {rng.choice(['both', 'values', 'deltas', 'both'])}")
+            r3 = b.reg()
+            c0 = scalar_token(rng, allow_nan=False)
+            op0 = rng.choice(["add", "sub", "sub", "mul"])
+            if rng.random() < 0.6:
+                b.add(f"bin {r3} {op0} {c0} {r}")
+            else:
+                b.add(f"bin {r3} {op0} {r} {c0}")
             r = r3
         if rng.random() < 0.35:
             # query, then mutate in place, then look at every view again
@@ -180,14 +192,20 @@ def gen_c03(rng, n):
         xstr = " ".join(fs(x) for x in xs)
         b.add(f"views {r}", focus=True)
         for side in ("left", "right"):
-            b.add(f"limit {r} {side} {xstr} ;; form={rng.choice(['scalar', 'list', 'array', 'series', 'index'])}", focus=True)
-        b.add(f"sample {r} {xstr} ;; form={rng.choice(['scalar', 'list', 'array', 'series', 'index'])}" +
+            b.add(f"limit {r} {side} {xstr} ;; form={rng.choice(['scalar', 'list', 'array', 'series', 'index', 'indexscalar'])}", focus=True)
+        b.add(f"sample {r} {xstr} ;; form={rng.choice(['scalar', 'list', 'array', 'series', 'index', 'indexscalar'])}" +
               (" call=1" if rng.random() < 0.4 else ""), focus=True)
         b.add(f"closed {r}", focus=True)
         b.add(f"nsteps {r}", focus=True)
         b.add(f"stepchanges {r}", focus=True)
         b.add(f"deltaroundtrip {r}", focus=True)
         b.add(f"views {r}", focus=True)
+        if rng.random() < 0.3:
+            # evaluation through the collection API must agree with evaluation of each member
+            other = b.emit_any(pick_spec(rng, rng.choice("LR")), rng)
+            xs2 = " ".join(fs(x) for x in b.critical())
+            kindc = rng.choice(["sample", "sample", "limitleft", "limitright"])
+            b.add(f"arraysample {kindc} 2 {r} {other} / {xs2}" + (" ;; top=1" if rng.random() < 0.5 else ""), focus=True)
         progs.append(b.program())
     return progs
 
@@ -221,7 +239,11 @@ def gen_pointwise(rng, n, ops, followups=False, scalar_vals=None):
             if not s.rows and rng.random() < 0.5:
                 s.closed = rng.choice("LR")
         mode = rng.random()
-        if mode < 0.55:
+        if mode < 0.06:
+            a = b.emit_any(f, rng)
+            c = a                      # the very same object on both sides (f == f, f - f, f & f …)
+            tag = "same"
+        elif mode < 0.55:
             a, c = b.emit_any(f, rng), b.emit_any(g, rng)
             tag = "ss"
         elif mode < 0.8:
@@ -242,8 +264,9 @@ def gen_pointwise(rng, n, ops, followups=False, scalar_vals=None):
             add_followups(b, rng, h)
         alias_probe(b, rng, a if not a.startswith("#") else c, h, p=0.12)
         requery_probe(b, rng, a if not a.startswith("#") else c, lambda q: f"bin {q} {op} {a} {c}", p=0.12)
-        if rng.random() < 0.5:
+        if rng.random() < 0.5 and op != "div":
             # a stale internal form only shows downstream: feed the result to another operation
+            # (not after a division: float arithmetic on non-dyadic quotients is outside the model)
             other = a if not a.startswith("#") else c
             k = b.reg("k")
             if rng.random() < 0.5:
@@ -425,6 +448,38 @@ def window_choice(rng, b, p_none=0.4):
     return lo, hi
 
 
+
+def spec_layer(spec, s0, e0, v):
+    """exact effect of layer(s0, e0, v) on a spec (undefined stays undefined)"""
+    pts = sorted(set([p for p, _ in spec.rows] + [x for x in (s0, e0) if x is not None]))
+
+    def val_at(x):
+        w = spec.init
+        for p, u in spec.rows:
+            if p <= x:
+                w = u
+        return w
+
+    def contrib(x):
+        a = v if (s0 is None or s0 <= x) else 0
+        c = v if (e0 is not None and e0 <= x) else 0
+        return a - c
+    init = spec.init
+    if init is not None:
+        init = init + (v if s0 is None else 0)
+    rows = []
+    for p in pts:
+        w = val_at(p)
+        rows.append((Fraction(p), None if w is None else w + contrib(p)))
+    # canonicalise
+    out, prev = [], init
+    for p, w in rows:
+        if w != prev:
+            out.append((p, w))
+            prev = w
+    return Spec(spec.closed, init, out)
+
+
 def stat_spec(rng):
     """a directly specified function with >= 1 finite defined piece"""
     while True:
@@ -550,7 +605,21 @@ def gen_c09(rng, n):
             b.add(f"hist {a} {cl} {stat} " + " ".join(f"{fs(l)}:{fs(r)}" for l, r in bins) + f" ;; bins={how}", focus=True)
         if rng.random() < 0.3:
             # query - mutate - query: the distribution accessor must be rebuilt after an in-place layer
-            b.add(f"layer {a} {fs(rng.choice([None, 1, 3]))} {fs(rng.choice([None, 6, 8]))} {rng.choice([1, -2, 3])}")
+            s1, e1, v1 = rng.choice([None, 1, 3]), rng.choice([None, 6, 8]), rng.choice([1, -2, 3])
+            b.add(f"layer {a} {fs(s1)} {fs(e1)} {v1}")
+            f2 = spec_layer(f, s1, e1, Fraction(v1))
+            p2 = spec_pieces(f2)
+            if p2:
+                tot2, bounds2 = cum_boundaries(p2)
+                ex2 = is_pow2(tot2)
+                fr = [Fraction(x, 8) for x in range(0, 9) if ex2 or all(Fraction(x, 8) != c for c in bounds2[:-1])]
+                b.add(f"frac {a} " + " ".join(fs(x) for x in fr), focus=True)
+                b.add(f"perc {a} " + " ".join(fs(x * 100) for x in fr), focus=True)
+                for q in (2, 4, 3):
+                    if ex2 and q == 3:
+                        continue
+                    if ex2 or all(Fraction(i, q) not in bounds2 for i in range(1, q)):
+                        b.add(f"quant {a} {q}", focus=True)
             b.add(f"ecdf {a} right " + " ".join(fs(y) for y in ys), focus=True)
             b.add(f"ecdfs {a} " + " ".join(fs(y) for y in ys), focus=True)
             b.add(f"vsums {a}", focus=True)
@@ -614,6 +683,8 @@ def gen_c10(rng, n, exhaustive=False):
             if lo is None and hi is None and rng.random() < 0.5:
                 opts.append("win=default")
             b.add(f"vir {a} {fs(lo)} {fs(hi)} {c}" + opt_suffix(opts), focus=True)
+            if rng.random() < 0.4:
+                b.add(f"stat {a} minmax {fs(lo)} {fs(hi)} {c}" + opt_suffix([o for o in opts if not o.startswith("win=default")]), focus=True)
             for name in ("min", "max"):
                 o2 = list(opts)
                 if lo is None and hi is None and c == "default" and rng.random() < 0.5:
@@ -621,6 +692,12 @@ def gen_c10(rng, n, exhaustive=False):
                 elif rng.random() < 0.3:
                     o2.append("aggform=list")
                 b.add(f"stat {a} {name} {fs(lo)} {fs(hi)} {c}" + opt_suffix(o2), focus=True)
+            if rng.random() < 0.12:
+                # query - mutate - query
+                b.add(f"touch {a} {rng.choice(['values', 'both', 'stat'])}")
+                s1, e1 = rng.choice([(None, None), (None, None), (1, 5), (None, 3), (2, None)])
+                b.add(f"layer {a} {fs(s1)} {fs(e1)} {rng.choice([1, -2, 10])}")
+                b.note_points([s1, e1])
         progs.append(b.program())
     return progs
 
@@ -632,6 +709,11 @@ def gen_intervals(rng, b, kind=None):
     kind = kind or rng.choice(["breaks", "breaks", "gapped", "overlap", "unordered"])
     grid = [x for x in crit if lo <= x <= hi]
     if kind == "breaks":
+        if rng.random() < 0.3:
+            a0 = int(rng.choice([x for x in grid if Fraction(x).denominator == 1] or [0]))
+            n0 = rng.randint(1, 4)
+            br = [Fraction(a0 + i) for i in range(n0 + 1)]       # consecutive unit intervals (also used as hourly periods)
+            return kind, list(zip(br, br[1:]))
         k = rng.randint(2, min(5, len(grid)))
         br = sorted(rng.sample(grid, k))
         return kind, list(zip(br, br[1:]))
@@ -655,8 +737,28 @@ def gen_intervals(rng, b, kind=None):
     return kind, ivs
 
 
-def gen_c11(rng, n):
+def gen_c11_periods(rng, n):
+    """PeriodIndex cuts on the naive datetime domain: hourly periods = unit tick intervals, every closedness"""
     progs = []
+    for _ in range(n):
+        b = Builder("dt")
+        f = pick_spec(rng, small_p=0.3, nanp=0.2, stepfree_p=0.0)
+        a = b.emit_any(f, rng)
+        ints = sorted({int(p) for p in f.points() if Fraction(p).denominator == 1} | {0})
+        a0 = rng.choice(ints) - rng.choice([0, 1])
+        n0 = rng.randint(1, 4)
+        ivs = [(Fraction(a0 + i), Fraction(a0 + i + 1)) for i in range(n0)]
+        ivstr = " ".join(f"{fs(l)}:{fs(r)}" for l, r in ivs)
+        c = rng.choice(["left", "right", "both", "neither", "default"])
+        for name in ("min", "max", "mean"):
+            b.add(f"slicer {a} {name} {c} {ivstr} ;; cuts=period", focus=True)
+        b.tags.update(kind="period", iclosed=c)
+        progs.append(b.program())
+    return progs
+
+
+def gen_c11(rng, n):
+    progs = gen_c11_periods(rng, max(10, n // 8))
     for _ in range(n):
         b = Builder(pick_domain(rng))
         f = pick_spec(rng, small_p=0.3, nanp=0.25, stepfree_p=0.02)
@@ -666,6 +768,17 @@ def gen_c11(rng, n):
             continue
         ivstr = " ".join(f"{fs(l)}:{fs(r)}" for l, r in ivs)
         c = rng.choice(["left", "right", "both", "neither", "default"])
+        if kind == "breaks" and b.domain == "dt" and all(Fraction(l).denominator == 1 and r - l == 1 for l, r in ivs):
+            period = True
+        else:
+            period = False
+        if all(spec_pieces(f, l, r) for l, r in ivs) and rng.random() < 0.4:
+            vals_f = sorted({v for l, r in ivs for v, _ in spec_pieces(f, l, r)})
+            br = [vals_f[0] - 1, vals_f[0], (vals_f[0] + vals_f[-1]) / 2 + Fraction(1, 4), vals_f[-1] + 1]
+            br = sorted(set(br))
+            if len(br) >= 2:
+                b.add(f"slicehist {a} {rng.choice(['left', 'right'])} {rng.choice(['sum', 'probability', 'frequency'])} " +
+                      " ".join(fs(x) for x in br) + " / " + ivstr, focus=True)
         for name in rng.sample(["mean", "integral", "median", "modes", "min", "max"], 4):
             if name == "median":
                 ok = True
@@ -676,6 +789,8 @@ def gen_c11(rng, n):
                 if not ok:
                     continue
             opts = ["via=" + rng.choice(["method", "method", "agg", "apply"])]
+            if period and rng.random() < 0.6:
+                opts.append("cuts=period")
             b.add(f"slicer {a} {name} {c} {ivstr}" + opt_suffix(opts), focus=True)
         if kind in ("breaks", "gapped") and rng.random() < 0.7:
             name = rng.choice(["mean", "max", "min", "median", "mode"])
@@ -789,8 +904,8 @@ def gen_c12(rng, n):
             else:
                 b.add(f"copy {h} {A}", focus=True)
                 s, e = rng.choice([None, 2, 4, 6]), rng.choice([None, 2, 4, 6])
-                b.add(f"layer {h} {fs(s)} {fs(e)} {rng.choice([1, -1, 2])}", focus=True)
-                b.add(f"layer {h} {fs(s)} {fs(e)} {rng.choice([1, -1, -2])}", focus=True)
+                b.add(f"layer {h} {fs(s)} {fs(e)} {rng.choice([1, -1, 2, 0])}", focus=True)
+                b.add(f"layer {h} {fs(rng.choice([s, 3, 5]))} {fs(rng.choice([e, 7]))} {rng.choice([1, -1, -2, 0, 0])}", focus=True)
             b.add(f"rawframe {h}", focus=True)
             b.add(f"consistent {h}", focus=True)
             b.add(f"nsteps {h}", focus=True)
@@ -913,11 +1028,13 @@ def emit_op(b, rng, A, B, want=None):
     elif kind == "fillna":
         b.add(f"fillna {h} {A} {B}")
     elif kind == "fillnam":
-        b.add(f"fillna {h} {A} @{rng.choice(['ffill', 'bfill'])}")
+        b.add(f"fillna {h} {A} @{rng.choice(['ffill', 'pad', 'bfill', 'backfill'])}")
     elif kind == "fillnas":
         b.add(f"fillna {h} {A} #{rng.choice(['0', '2'])}")
     elif kind == "shift":
-        b.add(f"shift {h} {A} {rng.choice([0, 1, -2])}")
+        d0 = rng.choice([0, 1, -2])
+        b.add(f"shift {h} {A} {d0}")
+        b.note_points([p + d0 for p in list(b.pts)])
     elif kind == "diff":
         b.add(f"diff {h} {A} {rng.choice([1, -2])}")
     elif kind == "copy":
@@ -930,10 +1047,10 @@ def emit_op(b, rng, A, B, want=None):
 
 def mutate(b, rng, r):
     pts = sorted(b.pts) or [Fraction(1)]
-    s = rng.choice(pts + [None, rng.choice(pts) + Fraction(1, 2)])
-    e = rng.choice(pts + [None])
+    s = rng.choice(pts + pts + [None, rng.choice(pts) + Fraction(1, 2)])
+    e = rng.choice(pts + pts + [None])
     v = rng.choice([1, -1, 2, 5])
-    if rng.random() < 0.5:
+    if rng.random() < 0.65:
         b.add(f"layer {r} {fs(s)} {fs(e)} {v}")
     else:
         b.add(f"layerv {r} {fs(s)}:{fs(e)}:{v} {fs(e)}:none:{-v} ;; route={rng.choice(['list', 'ndarray', 'series'])}")
@@ -948,9 +1065,38 @@ def gen_c13(rng, n):
         fb = pick_spec(rng, cl, small_p=0.4, nanp=0.2)
         A = b.emit_any(fa, rng)
         B = b.emit_any(fb, rng)
+        want = None
+        u = rng.random()
+        if u < 0.2:
+            # operations that may re-use the operand's frame (shift, copy, negate, unbounded clip): the operand holds
+            # only its step-change column, which is what scalar layering edits in place
+            want = rng.choice(["shift", "shift", "copy", "un", "clipnone"])
+            fa2 = Spec(cl, fa.init if fa.init is not None else Fraction(0),
+                       [(p, v if v is not None else Fraction(1)) for p, v in fa.rows] or [(Fraction(1), Fraction(2)), (Fraction(3), Fraction(0))])
+            A = b.emit(fa2, rng.choice(["layers", "layerv", "ctor"]), rng)
+        elif u < 0.3:
+            # method fills write the spliced initial value / first value into a value column: must be a copy
+            want = "fillnam"
+            v0, v1 = rng.choice([1, 2, -1]), rng.choice([3, 0, 5])
+            shape = rng.choice(["gap_after_first", "gap_at_start", "gap_at_end"])
+            if shape == "gap_after_first":
+                rows = [(Fraction(1), None), (Fraction(3), Fraction(v1)), (Fraction(6), Fraction(0))]
+                init = Fraction(v0)
+            elif shape == "gap_at_start":
+                rows = [(Fraction(2), Fraction(v1)), (Fraction(5), Fraction(v0))]
+                init = None
+            else:
+                rows = [(Fraction(2), Fraction(v1)), (Fraction(5), None)]
+                init = Fraction(v0)
+            A = b.emit(Spec(cl, init, rows), "fromvalues", rng)
+            if rng.random() < 0.5:
+                b.add(f"touch {A} {rng.choice(['values', 'both'])}")
+        elif u < 0.6:
+            # in-place writes go to the cached step-change column: make sure it exists on the operand
+            b.add(f"touch {A} {rng.choice(['deltas', 'deltas', 'both'])}")
         b.add(f"frame {A}", focus=True)
         b.add(f"frame {B}", focus=True)
-        h, kind = emit_op(b, rng, A, B)
+        h, kind = emit_op(b, rng, A, B, want=want)
         h2, kind2 = emit_op(b, rng, A, B) if rng.random() < 0.4 else (None, None)
         regs = [A, B, h] + ([h2] if h2 else [])
         for r in regs:
@@ -981,16 +1127,29 @@ def gen_c14(rng, n):
         cl = rng.choice("LR")
         r = b.reg()
         b.add(f"new {r} {cl} {rng.choice(['0', '0', '1'])}")
+        if rng.random() < 0.3:
+            # a step-free function already answers (NaN) for integral / mean: that answer must not survive the first layer
+            for q0 in rng.sample(["integral", "mean", "max", "min"], 2):
+                b.add(f"q {r} {q0}", focus=True)
         # power-of-two total length keeps share boundaries exact in floats (see DESIGN §5.5)
         pts = [0, 1, 2, 3, 4, 8]
         s0, e0 = 0, 8
         b.add(f"layer {r} {s0} {e0} 1")
         b.note_points(pts)
+        queries = QUERIES
+        if rng.random() < 0.35:
+            # a receiver with an undefined region (layer takes a different path there); the cached objects live on
+            # the new object.  No percentile queries: the defined length is no longer a power of two (§5.5).
+            r2 = b.reg()
+            lo0, hi0 = rng.choice([(2, 3), (1, 2), (3, 4), (0, 1), (4, 8)])
+            b.add(f"maskt {r2} {r} {lo0} {hi0}")
+            r = r2
+            queries = [q for q in QUERIES if not q.startswith(("perc", "frac", "median"))]
         hist = []
         for _ in range(rng.randint(3, 9)):
             t = rng.random()
             if t < 0.55:
-                b.add(f"q {r} {rng.choice(QUERIES)}", focus=True)
+                b.add(f"q {r} {rng.choice(queries)}", focus=True)
             elif t < 0.85:
                 s, e = sorted(rng.sample(pts, 2))
                 u = rng.random()
@@ -1012,10 +1171,10 @@ def gen_c14(rng, n):
                 # return to an earlier state
                 b.add(f"layer {r} {s} {e} {-v}")
             if rng.random() < 0.3:
-                q = rng.choice(QUERIES)
+                q = rng.choice(queries)
                 b.add(f"q {r} {q}", focus=True)
                 b.add(f"q {r} {q}", focus=True)
-        for q in rng.sample(QUERIES, 5):
+        for q in rng.sample(queries, 5):
             b.add(f"q {r} {q}", focus=True)
         b.add(f"frame {r}", focus=True)
         progs.append(b.program())
@@ -1035,7 +1194,7 @@ C15_OPS = (["bin:" + o for o in BINOPS_ARITH + BINOPS_REL + BINOPS_LOGIC] +
            ["mask", "where", "fillna", "cov", "corr", "agg:sum", "agg:mean", "agg:max", "agg:min", "agg:median",
             "agg:logical_or", "agg:logical_and"])
 C15_UNARY = (["un:" + u for u in UNOPS] + ["clip", "clipnone", "maskt", "wheret", "fillnas", "fillnam", "shift", "diff",
-                                           "copy", "resample", "binscalar", "rbinscalar"])
+                                           "copy", "resample", "binscalar", "rbinscalar", "layer", "layer", "layerv"])
 
 
 def gen_c15(rng, n, exhaustive=False):
@@ -1084,6 +1243,18 @@ def gen_c15(rng, n, exhaustive=False):
                 b.add(f"diff {h} {A} 2", focus=True)
             elif op == "copy":
                 b.add(f"copy {h} {A}", focus=True)
+            elif op in ("layer", "layerv"):
+                # layering never combines two user functions: it must not raise a mismatch and must keep the side,
+                # whatever the receiver looks like (undefined regions take a different path inside layer)
+                if sa == "steps" and rng.random() < 0.7:
+                    m = b.reg("m")
+                    b.add(f"maskt {m} {A} {rng.choice([1, 2, 3])} {rng.choice([4, 6])}")
+                    A = m
+                b.add(f"copy {h} {A}")
+                if op == "layer":
+                    b.add(f"layer {h} {fs(rng.choice([None, 0, 2]))} {fs(rng.choice([None, 5, 7]))} {rng.choice([1, -2])}", focus=True)
+                else:
+                    b.add(f"layerv {h} 0:5:1 2:none:-2 ;; route={rng.choice(['list', 'ndarray', 'series'])}", focus=True)
             elif op == "resample":
                 if sa != "steps":
                     continue
@@ -1120,8 +1291,12 @@ def gen_tree(b, rng, leaves, depth):
         elif t < 0.9:
             b.add(f"shift {h} {x} {rng.choice([1, -1, 2])}")
         else:
-            b.add(f"bin {h} {rng.choice(BINOPS_ARITH + BINOPS_REL + BINOPS_LOGIC)} {x} {scalar_token(rng)}" +
-                  opt_suffix(["sf=" + rng.choice(["npf", "npi", "pyf", "py"])]))
+            op = rng.choice(BINOPS_ARITH + BINOPS_REL + BINOPS_LOGIC)
+            sc0 = scalar_token(rng) if op != "div" else "#" + rng.choice(["2", "-2", "1/2", "4", "-1", "0", "nan"])
+            if op != "div" and rng.random() < 0.45:
+                b.add(f"bin {h} {op} {sc0} {x}" + opt_suffix(["sf=" + rng.choice(["npf", "npi", "pyf", "py"])]))
+            else:
+                b.add(f"bin {h} {op} {x} {sc0}" + opt_suffix(["sf=" + rng.choice(["npf", "npi", "pyf", "py"])]))
         if rng.random() < 0.3:
             b.add(f"touch {h} {rng.choice(['deltas', 'values', 'both', 'stat', 'frame'])}")
         return h
@@ -1130,7 +1305,13 @@ def gen_tree(b, rng, leaves, depth):
     h = b.reg("e")
     t = rng.random()
     if t < 0.7:
-        b.add(f"bin {h} {rng.choice(BINOPS_ARITH + BINOPS_REL + BINOPS_LOGIC)} {x} {y}")
+        op = rng.choice(BINOPS_ARITH + BINOPS_REL + BINOPS_LOGIC)
+        if op == "div":
+            # quotients of step functions are not exactly representable and further float arithmetic on them is
+            # outside the model (DESIGN 5.5): inside trees divide by power-of-two scalars only
+            b.add(f"bin {h} div {x} #{rng.choice(['2', '-2', '1/2', '4', '-1'])}")
+        else:
+            b.add(f"bin {h} {op} {x} {y}")
     elif t < 0.8:
         b.add(f"{rng.choice(['mask', 'where'])} {h} {x} {y}")
     elif t < 0.9:
@@ -1142,8 +1323,70 @@ def gen_tree(b, rng, leaves, depth):
     return h
 
 
-def gen_c16(rng, n):
+def gen_c16_provenance(rng, n):
+    """one operation on one function under every provenance / materialisation state, then the result and the operand are
+    both used again: the outcome may not depend on how the operand was built or what has been read from it"""
     progs = []
+    shapes = ["random", "random", "gap_after_first", "leading_gap", "trailing_gap"]
+    for _ in range(n):
+        b = Builder(pick_domain(rng))
+        cl = rng.choice("LR")
+        shape = rng.choice(shapes)
+        if shape == "random":
+            f = pick_spec(rng, cl, small_p=0.4, nanp=0.2, stepfree_p=0.0)
+        elif shape == "gap_after_first":
+            f = Spec(cl, Fraction(rng.choice([1, 3, -2])), [(Fraction(1), None), (Fraction(3), Fraction(rng.choice([2, 5]))), (Fraction(6), Fraction(0))])
+        elif shape == "leading_gap":
+            f = Spec(cl, None, [(Fraction(2), Fraction(rng.choice([2, 5]))), (Fraction(5), Fraction(1))])
+        else:
+            f = Spec(cl, Fraction(2), [(Fraction(2), Fraction(4)), (Fraction(5), None)])
+        route = rng.choice(["fromvalues", "layers", "layerv", "ctor"])
+        x = b.emit(f, route, rng)
+        t = rng.choice(["none", "deltas", "values", "both", "both", "stat", "frame"])
+        if t != "none":
+            b.add(f"touch {x} {t}")
+        g = b.emit_any(pick_spec(rng, cl, small_p=0.5, nanp=0.0, stepfree_p=0.0), rng)
+        h = b.reg("h")
+        kind = rng.choice(["csub", "csub", "cadd", "subc", "cmul", "cdiv", "ffill", "ffill", "bfill", "fills", "neg", "rel"])
+        c0 = "#" + fs(rng.choice([5, -1, 2, Fraction(1, 2)]))
+        sf = opt_suffix(["sf=" + rng.choice(["npf", "npi", "pyf", "py"])])
+        if kind == "csub":
+            b.add(f"bin {h} sub {c0} {x}" + sf, focus=True)
+        elif kind == "cadd":
+            b.add(f"bin {h} add {c0} {x}" + sf, focus=True)
+        elif kind == "subc":
+            b.add(f"bin {h} sub {x} {c0}" + sf, focus=True)
+        elif kind == "cmul":
+            b.add(f"bin {h} mul {c0} {x}" + sf, focus=True)
+        elif kind == "cdiv":
+            b.add(f"bin {h} div {x} #{rng.choice(['2', '-2', '1/2'])}", focus=True)
+        elif kind == "ffill":
+            b.add(f"fillna {h} {x} @{rng.choice(['ffill', 'pad'])}", focus=True)
+        elif kind == "bfill":
+            b.add(f"fillna {h} {x} @{rng.choice(['bfill', 'backfill'])}", focus=True)
+        elif kind == "fills":
+            b.add(f"fillna {h} {x} #{rng.choice(['0', '7'])}", focus=True)
+        elif kind == "neg":
+            b.add(f"un {h} neg {x}", focus=True)
+        else:
+            b.add(f"bin {h} {rng.choice(BINOPS_REL)} {c0} {x}", focus=True)
+        b.add(f"frame {h}", focus=True)
+        b.add(f"consistent {h}", focus=True)
+        b.add(f"stepchanges {h}", focus=True)
+        b.add(f"frame {x}", focus=True)                 # the operand is untouched …
+        b.add(f"stepchanges {x}", focus=True)
+        k, k2 = b.reg("k"), b.reg("k")
+        b.add(f"bin {k} {rng.choice(['add', 'sub'])} {h} {g}", focus=True)     # … the result is a first-class operand …
+        b.add(f"frame {k}", focus=True)
+        b.add(f"bin {k2} add {x} {g}", focus=True)                             # … and so, still, is the operand
+        b.add(f"frame {k2}", focus=True)
+        b.tags.update(kind="provenance", op=kind, touch=t, route=route, shape=shape)
+        progs.append(b.program())
+    return progs
+
+
+def gen_c16(rng, n):
+    progs = gen_c16_provenance(rng, max(40, n // 2))
     for _ in range(n):
         dom = pick_domain(rng)
         cl = rng.choice("LR")
@@ -1164,6 +1407,8 @@ def gen_c16(rng, n):
             xs = " ".join(fs(x) for x in b.critical(range(0, 11)))
             b.add(f"limit {res} left {xs}", focus=True)
             b.add(f"limit {res} right {xs}", focus=True)
+            for lf in leaves:
+                b.add(f"frame {lf}", focus=True)      # the leaves must come out of the evaluation untouched
             b.tags.update(variant=variant)
             progs.append(b.program())
     return progs
@@ -1201,6 +1446,9 @@ def gen_c18(rng, n):
                     acc = t
                 b.add(f"ident {h} {acc}", focus=True)
             b.tags.update(kind="agg", name=name, container=cont)
+        elif kind < 0.74:
+            b.add("arrayneg " + " ".join(members) + (" ;; form=dunder" if rng.random() < 0.5 else ""), focus=True)
+            b.tags.update(kind="arrayneg")
         elif kind < 0.85:
             op = rng.choice(BINOPS_ARITH + BINOPS_REL)
             other = rng.choice(["scalar", "stairs", "array"])
@@ -1208,8 +1456,19 @@ def gen_c18(rng, n):
                   (" / " + scalar_token(rng, allow_nan=False) if other == "scalar" else ""), focus=True)
             b.tags.update(kind="arraybin", name=op)
         else:
-            xs = " ".join(fs(x) for x in b.critical())
-            b.add(f"arraysample {rng.choice(['sample', 'limitleft', 'limitright'])} {len(members)} " + " ".join(members) + " / " + xs, focus=True)
+            # tables never combine members, so the members may have any mix of closed sides
+            extra = []
+            for _ in range(rng.randint(1, 3)):
+                s2 = pick_spec(rng, rng.choice("LR"), small_p=0.4, nanp=0.15, stepfree_p=0.3)
+                extra.append(b.emit_any(s2, rng))
+            allm = extra + members if rng.random() < 0.5 else members + extra
+            crit = b.critical()
+            if rng.random() < 0.5:
+                crit = crit + rng.sample(crit, min(2, len(crit)))     # repeated, unsorted query points
+                rng.shuffle(crit)
+            xs = " ".join(fs(x) for x in crit)
+            b.add(f"arraysample {rng.choice(['sample', 'sample', 'limitleft', 'limitright'])} {len(allm)} " + " ".join(allm) + " / " + xs +
+                  (" ;; top=1" if rng.random() < 0.4 else ""), focus=True)
             b.tags.update(kind="arraysample")
         progs.append(b.program())
     return progs
@@ -1239,8 +1498,9 @@ def gen_c19(rng, n):
             b.add(f"stat {A} var {fs(lo)} {fs(hi)} default", focus=True)
         if rng.random() < 0.3:
             C = b.emit_any(pick_spec(rng, cl, nanp=0.1, stepfree_p=0.0), rng)
-            b.add(f"covm cov 0 10 {A} {B} {C}", focus=True)
-            b.add(f"covm corr 0 10 {A} {B} {C}", focus=True)
+            via = rng.choice(["", " ;; via=accessor", " ;; via=sarray"])
+            b.add(f"covm cov 0 10 {A} {B} {C}" + via, focus=True)
+            b.add(f"covm corr 0 10 {A} {B} {C}" + via, focus=True)
         progs.append(b.program())
     return progs
 
@@ -1260,6 +1520,15 @@ def gen_c20(rng, n):
             b.note_points([p + d for p in f.points()])
             b.observe(h)
             b.add(f"closed {h}", focus=True)
+            if f.rows and rng.random() < 0.5:
+                # the shifted function is a new object: layering onto it (on one of its step points) must not move f
+                p0 = rng.choice(f.points()) + d
+                b.add(f"layer {h} {fs(p0)} {fs(p0 + rng.choice([1, 2]))} {rng.choice([10, -3])}")
+                b.add(f"frame {A}", focus=True)
+                b.add(f"stepchanges {A}", focus=True)
+                p1 = rng.choice(f.points())
+                b.add(f"layer {A} {fs(p1)} {fs(p1 + 1)} 7")
+                b.add(f"frame {h}", focus=True)
         elif t < 0.6:
             d = rng.choice([1, -1, 2, -3, Fraction(1, 2)])
             h = b.reg("h")
